@@ -276,7 +276,9 @@ PROPS = {
                 "deletion after a peer merge raised the clock (go-git) / a sequence of >5 actions (memory). Distinct: action-kind sequence.",
         "assumptions": ["remote-tracking refs fetched but not merged are not part of what a clock must dominate",
                         "values passed to a bare Witness are legitimately forgotten when the clock file is deleted"],
-        "tests": [{"name": "TestC05Clocks", "quick": 400, "shards_quick": 2, "thorough": 1500, "shards": 16}],
+        "needs_cli": True,
+        "tests": [{"name": "TestC05Clocks", "quick": 400, "shards_quick": 2, "thorough": 1500, "shards": 16},
+                  {"name": "TestC05CLI", "quick": 6, "shards_quick": 3, "thorough": 40, "shards": 8}],
     },
     "C04": {
         "level": "exploration",
@@ -342,6 +344,7 @@ PROPS = {
                         "metadata/no-op authors in actors are not asserted (statement is silent)"],
         "tests": [
             {"name": "TestC10Snapshot", "quick": 4000, "thorough": 12000, "shards": 16},
+            {"name": "TestC10Cache", "quick": 200, "shards_quick": 2, "thorough": 1000, "shards": 8},
         ],
     },
     "C20": {
